@@ -97,7 +97,11 @@ func JudgeC16(c *Ctx, h *History, obs []*Obs) ([]Violation, error) {
 			c.Stats.Add("c16.non_complementary_gens", 1)
 			continue
 		}
-		if !premiseHolds(o, tags) {
+		pcanon := g.Canon
+		if pcanon == nil {
+			pcanon = h.World.Patterns
+		}
+		if !premiseHolds(o, tags, pcanon, h.World.Module) {
 			c.Stats.Add("c16.torn_header_states", 1)
 			if o.Exit != 0 {
 				c.Stats.Add("c16.torn_header_blocked_regeneration", 1)
@@ -131,7 +135,7 @@ func JudgeC16(c *Ctx, h *History, obs []*Obs) ([]Violation, error) {
 		if g.Expect == "ok" && o.Exit != 0 {
 			c.Stats.Add("c16.recoveries_checked", 1)
 			out = append(out, Violation{Property: "C16", Class: "regeneration-blocked" + sfx, OpIndex: o.OpIndex,
-				Msg: fmt.Sprintf("inputs are valid by construction, tags %q / constraint %q are complementary and every prior output (%d present) is absent or header-intact, but generation exits %d: %s", tags, constraint, len(o.PriorOutputs), o.Exit, trunc(o.Stderr, 400))})
+				Msg: fmt.Sprintf("inputs are valid by construction, tags %q / constraint %q are complementary and every prior output (%d present) is absent, header-intact or outside the selected packages, but generation exits %d: %s", tags, constraint, len(o.PriorOutputs), o.Exit, trunc(o.Stderr, 400))})
 			continue
 		}
 		if g.Expect == "ok" && g.Spec != nil {
@@ -180,7 +184,7 @@ func JudgeC16(c *Ctx, h *History, obs []*Obs) ([]Violation, error) {
 		}
 		if o.Exit != 0 {
 			out = append(out, Violation{Property: "C16", Class: "regeneration-blocked" + sfx, OpIndex: o.OpIndex,
-				Msg: fmt.Sprintf("inputs are valid, tags %q / constraint %q are complementary and every prior output is absent or header-intact, but regeneration exits %d: %s", tags, constraint, o.Exit, trunc(o.Stderr, 400))})
+				Msg: fmt.Sprintf("inputs are valid, tags %q / constraint %q are complementary and every prior output is absent, header-intact or outside the selected packages, but regeneration exits %d: %s", tags, constraint, o.Exit, trunc(o.Stderr, 400))})
 			continue
 		}
 		got, want := produced(o), produced(ref)
@@ -224,7 +228,7 @@ func CheckC16(c *Ctx) (*Outcome, error) {
 	// (1) recovery histories with intact headers
 	mk := func(i int) ([]*History, error) {
 		rng := c.Rng("c16-history", i)
-		h := DrawHistory(c, rng, HistoryOpts{MaxSteps: 4, Faults: true, Corrupt: true, Relocate: true, EnvVariants: true, RandomOrder: true, Layout: lopts, OnlyLayout: rng.IntN(5) != 0})
+		h := DrawHistory(c, rng, HistoryOpts{MaxSteps: 4, Faults: true, Corrupt: true, Relocate: true, EnvVariants: true, RandomOrder: true, Layout: lopts, OnlyLayout: rng.IntN(5) != 0, TornHeader: rng.IntN(2) == 0})
 		if i < 3 {
 			c.Stats.Sample(map[string]any{"history_ops": DescribeOps(h), "tags": h.World.BuildTags, "constraint": h.World.OutputConstraint}, 8)
 		}
